@@ -124,7 +124,7 @@ def traverse(x, S, N, X, R, G, F):
     S.append(x)
     d = len(S)
     N[x] = d
-    F[x] = G[x]
+    F[x] = set(G[x])    # a copy: G may be the result of another digraph() call, where the nodes of a cycle share one set
     for y in R[x]:
         if N[y] == 0:
             traverse(y, S, N, X, R, G, F)
